@@ -275,7 +275,7 @@ restart:
 				e8fail("%d atoms in one independence group: enumeration too large", len(groups[g]))
 			}
 		}
-		if len(names.bools) > 10 {
+		if len(names.bools) > 14 {
 			e8fail("too many opaque booleans (%d)", len(names.bools))
 		}
 		a := &e8assign{rank: map[string]int{}, bools: map[string]bool{}, group: row.group}
@@ -604,11 +604,17 @@ func (p *Program) e8Rows() map[string]*e8row {
 	findRectIf := func(fd *ast.FuncDecl) *ast.IfStmt {
 		var found *ast.IfStmt
 		ast.Inspect(fd.Body, func(n ast.Node) bool {
-			fs, ok := n.(*ast.ForStmt)
-			if !ok || found != nil {
+			var list []ast.Stmt
+			switch l := n.(type) {
+			case *ast.ForStmt:
+				list = l.Body.List
+			case *ast.RangeStmt:
+				list = l.Body.List
+			}
+			if list == nil || found != nil {
 				return true
 			}
-			for _, st := range fs.Body.List {
+			for _, st := range list {
 				if is, ok := st.(*ast.IfStmt); ok && is.Else != nil {
 					if be, ok := is.Cond.(*ast.BinaryExpr); ok && be.Op == token.EQL {
 						if lit, ok := be.Y.(*ast.BasicLit); ok && lit.Value == "0" {
@@ -699,7 +705,7 @@ func (p *Program) e8Rows() map[string]*e8row {
 			var pt string
 			for _, k := range [][]string{{"Min", "X"}, {"Max", "X"}, {"Min", "Y"}, {"Max", "Y"}} {
 				v := leaf(r, k[0], k[1])
-				if v == nil || v.k != kScalar || !strings.HasSuffix(v.name, "]."+k[1]) {
+				if v == nil || v.k != kScalar || !strings.HasSuffix(v.name, "."+k[1]) || strings.Contains(v.name, ".Min.") || strings.Contains(v.name, ".Max.") || strings.HasPrefix(v.name, "(") {
 					return "rect." + k[0] + "." + k[1] + " is not the first point's " + k[1] + " coordinate"
 				}
 				base := strings.TrimSuffix(v.name, "."+k[1])
@@ -966,7 +972,7 @@ func (p *Program) e8Rows() map[string]*e8row {
 			got, ok := retBool(out)
 			want, _ := emptySpec(a, n, "recv.closed", true)
 			for _, b := range n.bools {
-				if strings.Contains(b, "== nil") && a.B(b) {
+				if strings.HasPrefix(b, "isnil(") && a.B(b) {
 					want = true
 				}
 			}
@@ -1119,7 +1125,7 @@ func (p *Program) e8Rows() map[string]*e8row {
 					gate = gate && !a.B(b)
 				case strings.HasSuffix(b, ".AllowRects"):
 					gate = gate && a.B(b)
-				case strings.Contains(b, "== nil"):
+				case strings.HasPrefix(b, "isnil("):
 					gate = gate && a.B(b)
 				default:
 					return "unrecognised condition " + b
